@@ -294,10 +294,46 @@ class FuncView:
                     return v
         return None
 
-    def single_def_value(self, name: str, at):
+    def single_def_value(self, name: str, at, assume=()):
         """Value expression of the unique plain definition of ``name`` reaching ``at``
-        (None if a parameter, multiple definitions or non-plain)."""
+        (None if a parameter, multiple definitions or non-plain).  ``assume`` is a set of
+        (test text, outcome) facts: definitions guarded by the opposite outcome are ignored."""
         defs = self.defs_reaching(name, at)
+        if len(defs) != 1 and assume:
+            si = stmt_index(self)
+            keep = []
+            for d in defs:
+                if d is self.cfg.entry or d.stmt is None:
+                    keep.append(d)
+                    continue
+                contra = False
+                for t, p in si.effective_guards(d.stmt):
+                    for txt, pol in canon_tests(t, p):
+                        if (txt, not pol) in assume:
+                            contra = True
+                if not contra:
+                    keep.append(d)
+            # a definition that certainly executes under the assumption kills the earlier ones it is dominated by
+            at_node = at if isinstance(at, Node) else self.node_of(at)
+            at_facts = set()
+            if at_node is not None and at_node.stmt is not None:
+                for t, p in si.effective_guards(at_node.stmt):
+                    at_facts.update(canon_tests(t, p))
+            sure = []
+            for d in keep:
+                if d is self.cfg.entry or d.stmt is None:
+                    continue
+                fs = set()
+                for t, p in si.effective_guards(d.stmt):
+                    fs.update(canon_tests(t, p))
+                if fs <= (set(assume) | at_facts):
+                    sure.append(d)
+            killed = set()
+            for d2 in sure:
+                for d1 in keep:
+                    if d1 is not d2 and (d1 is self.cfg.entry or (d1.stmt is not None and self.dominates(d1.stmt, d2.stmt))):
+                        killed.add(d1)
+            defs = [d for d in keep if d not in killed]
         if len(defs) != 1:
             return None
         (d,) = defs
@@ -308,7 +344,7 @@ class FuncView:
         v = self.value_of_def(d, name)
         return (v, d) if v is not None else None
 
-    def expand(self, expr, at=None, depth: int = 8, stop=(), allow_mutated=False):
+    def expand(self, expr, at=None, depth: int = 8, stop=(), allow_mutated=False, assume=()):
         """Copy of ``expr`` in which local names with a unique plain reaching
         definition are replaced by their defining expression (recursively)."""
         at_node = at if isinstance(at, Node) else self.node_of(at if at is not None else expr)
@@ -329,7 +365,7 @@ class FuncView:
                     return n
                 if n.id in view.mutated and not allow_mutated:
                     return n
-                r = view.single_def_value(n.id, self.node)
+                r = view.single_def_value(n.id, self.node, assume=assume)
                 if r is None:
                     return n
                 v, d = r
@@ -785,3 +821,266 @@ def loop_as_comprehension(loop: ast.For, result: str):
     return ast.copy_location(comp, loop)
 
 
+
+
+# ----------------------------------------------------------------------------------------------
+# canonical guards and aliases (recognisers compare these, never the literal spelling)
+def canon_tests(test, polarity=True):
+    """[(text, polarity)] of the atomic tests implied by ``test`` taken with ``polarity``:
+    negative comparison operators (!=, is not, not in) are rewritten to their positive twin with
+    the polarity flipped (exact for every operand), `a > b` is spelled `b < a`, `a >= b` as `b <= a`
+    (polarity is never folded into an ordering: `not a < b` is not `a >= b` for NaN)."""
+    from .normalize import NEG_EXACT
+
+    out = []
+    work = []
+    for t, p in flat_tests(test, polarity):
+        if isinstance(t, ast.Compare) and len(t.ops) > 1 and p:
+            # a <= b < c  ≡  a <= b and b < c  (operands are evaluated once; they are pure here)
+            l = t.left
+            for op, r in zip(t.ops, t.comparators):
+                work.append((ast.Compare(left=l, ops=[op], comparators=[r]), True))
+                l = r
+        else:
+            work.append((t, p))
+    for t, p in work:
+        if isinstance(t, ast.Compare) and len(t.ops) == 1:
+            op, l, r = t.ops[0], t.left, t.comparators[0]
+            if isinstance(op, (ast.NotEq, ast.IsNot, ast.NotIn)):
+                t = ast.Compare(left=l, ops=[NEG_EXACT[type(op)]()], comparators=[r])
+                p = not p
+            elif isinstance(op, ast.Gt):
+                t = ast.Compare(left=r, ops=[ast.Lt()], comparators=[l])
+            elif isinstance(op, ast.GtE):
+                t = ast.Compare(left=r, ops=[ast.LtE()], comparators=[l])
+            if isinstance(t.ops[0], ast.Eq) and U(t.comparators[0]) < U(t.left) and not isinstance(t.comparators[0], ast.Constant):
+                t = ast.Compare(left=t.comparators[0], ops=[ast.Eq()], comparators=[t.left])
+        out.append((U(t), p))
+    return out
+
+
+def canon_guards(si, node, within=None, expand=None):
+    """set of canonical (text, polarity) conditions under which ``node`` executes (explicit and
+    early-exit guards); ``within`` restricts to tests located inside that statement; ``expand``
+    (a callable on (test, at)) may resolve temporaries first"""
+    out = set()
+    for t, p in si.effective_guards(node):
+        if within is not None and not any(x is t for x in ast.walk(within)):
+            continue
+        if expand is not None:
+            t = expand(t, t)
+        out.update(canon_tests(t, p))
+    return out
+
+
+def canon_want(*items):
+    """canonical form of expected (test text, polarity) pairs"""
+    out = set()
+    for txt, pol in items:
+        out.update(canon_tests(ast.parse(txt, mode="eval").body, pol))
+    return out
+
+
+def aliases(fv, name):
+    """names that are plain copies of ``name`` or of which ``name`` is a plain copy
+    (``a = b`` single assignments, transitively) — helper inlining and temporaries create them"""
+    group = {name}
+    changed = True
+    pairs = []
+    for s in fv.statements():
+        if isinstance(s, ast.Assign) and len(s.targets) == 1 and isinstance(s.targets[0], ast.Name) and isinstance(s.value, ast.Name):
+            pairs.append((s.targets[0].id, s.value.id))
+        elif isinstance(s, ast.AnnAssign) and isinstance(s.target, ast.Name) and isinstance(s.value, ast.Name):
+            pairs.append((s.target.id, s.value.id))
+    nstores = {}
+    for n in ast.walk(fv.fi.node):
+        if isinstance(n, ast.Name) and isinstance(n.ctx, ast.Store):
+            nstores[n.id] = nstores.get(n.id, 0) + 1
+    pairs = [(a, b) for a, b in pairs if nstores.get(a, 0) == 1]  # the copy is the single definition of its target
+    while changed:
+        changed = False
+        for a, b in pairs:
+            if (a in group) != (b in group):
+                group |= {a, b}
+                changed = True
+    return group
+
+
+def mini_eval(n, env):
+    """value of a small side-effect-free expression over integers/booleans given ``env`` (name → value);
+    raises ValueError for anything outside (names not in env, calls, attributes …).  Used to compare
+    guard conditions as truth tables over a small abstract domain instead of by their spelling."""
+    if isinstance(n, ast.Constant) and (isinstance(n.value, (int, float, bool, str)) or n.value is None):
+        return n.value
+    if isinstance(n, (ast.Tuple, ast.List, ast.Set)):
+        return [mini_eval(e, env) for e in n.elts]
+    if isinstance(n, ast.Name):
+        if n.id in env:
+            return env[n.id]
+        raise ValueError(f"unknown name {n.id}")
+    if isinstance(n, ast.UnaryOp):
+        v = mini_eval(n.operand, env)
+        if isinstance(n.op, ast.Not):
+            return not v
+        if isinstance(n.op, ast.USub):
+            return -v
+    if isinstance(n, ast.BoolOp):
+        if isinstance(n.op, ast.And):
+            r = True
+            for v in n.values:
+                r = mini_eval(v, env)
+                if not r:
+                    return r
+            return r
+        r = False
+        for v in n.values:
+            r = mini_eval(v, env)
+            if r:
+                return r
+        return r
+    if isinstance(n, ast.BinOp) and isinstance(n.op, (ast.Add, ast.Sub, ast.Mult)):
+        l, r = mini_eval(n.left, env), mini_eval(n.right, env)
+        return l + r if isinstance(n.op, ast.Add) else (l - r if isinstance(n.op, ast.Sub) else l * r)
+    if isinstance(n, ast.Compare):
+        l = mini_eval(n.left, env)
+        for op, c in zip(n.ops, n.comparators):
+            r = mini_eval(c, env)
+            ok = {ast.Lt: lambda: l < r, ast.LtE: lambda: l <= r, ast.Gt: lambda: l > r, ast.GtE: lambda: l >= r, ast.Eq: lambda: l == r,
+                  ast.NotEq: lambda: l != r, ast.Is: lambda: l is r, ast.IsNot: lambda: l is not r,
+                  ast.In: lambda: l in r, ast.NotIn: lambda: l not in r}.get(type(op))
+            if isinstance(op, (ast.Lt, ast.LtE, ast.Gt, ast.GtE)) and (isinstance(l, str) != isinstance(r, str)):
+                raise ValueError("ordering of a string and a number")
+            if ok is None:
+                raise ValueError("operator")
+            if not ok():
+                return False
+            l = r
+        return True
+    raise ValueError(f"expression {ast.dump(n)[:40]}")
+
+
+def dict_items(fv, expr, at):
+    """{constant key: value expression} denoted by ``expr`` at ``at``: a dict literal, ``dict(k=v)``, or a local
+    name bound once to one of those and then filled by unconditional constant-key stores ``name[k] = v`` that
+    dominate ``at`` (no other mutation of the name before ``at``).  None when it cannot be resolved."""
+    def literal(v):
+        if isinstance(v, ast.Dict) and all(isinstance(k, ast.Constant) for k in v.keys):
+            return {k.value: x for k, x in zip(v.keys, v.values)}
+        if isinstance(v, ast.Call) and dotted_name(v.func) == "dict" and not v.args and all(k.arg for k in v.keywords):
+            return {k.arg: k.value for k in v.keywords}
+        return None
+
+    lit = literal(expr)
+    if lit is not None:
+        return lit
+    if not isinstance(expr, ast.Name):
+        return None
+    r = fv.single_def_value(expr.id, at if isinstance(at, Node) else fv.node_of(at))
+    if r is None:
+        return None
+    v, d = r
+    out = literal(v)
+    if out is None:
+        return None
+    out = dict(out)
+    at_stmt = stmt_index(fv).statement(at) if not isinstance(at, ast.stmt) else at
+    for s in fv.statements():
+        for n in walk_no_nested(s):
+            if isinstance(n, ast.Name) and n.id == expr.id and s is not d.stmt and s is not at_stmt:
+                # a use of the dict between its creation and `at`
+                if isinstance(s, ast.Assign) and len(s.targets) == 1 and isinstance(s.targets[0], ast.Subscript) and s.targets[0].value is n \
+                        and isinstance(s.targets[0].slice, ast.Constant):
+                    if fv.dominates(d.stmt, s) and fv.dominates(s, at_stmt):
+                        out[s.targets[0].slice.value] = s.value
+                        continue
+                    if not _may_precede(fv, s, at_stmt):
+                        continue
+                    return None
+                if _may_precede(fv, s, at_stmt) and isinstance(n.ctx, ast.Load):
+                    # passed around or mutated through a method before `at`: not resolvable
+                    par_call = any(isinstance(c, ast.Call) and isinstance(c.func, ast.Attribute) and c.func.value is n for c in walk_no_nested(s))
+                    if par_call:
+                        return None
+    return out
+
+
+def _may_precede(fv, a, b):
+    """can statement a execute before statement b?"""
+    na, nb = fv.node_of(a), fv.node_of(b)
+    if na is None or nb is None:
+        return True
+    seen, work = set(), [na]
+    while work:
+        x = work.pop()
+        if x is nb:
+            return True
+        if x in seen:
+            continue
+        seen.add(x)
+        work.extend(y for y, _ in x.succ)
+    return False
+
+
+def dotted_name(n):
+    parts = []
+    while isinstance(n, ast.Attribute):
+        parts.append(n.attr)
+        n = n.value
+    if isinstance(n, ast.Name):
+        parts.append(n.id)
+        return ".".join(reversed(parts))
+    return None
+
+
+def call_bindings(fv, call, callee_fi, skip_self=None):
+    """({parameter: value expression}, unresolved) for ``call`` against the signature of ``callee_fi``:
+    positional arguments are matched to parameter names, keywords by name, and ``**name`` is expanded through
+    dict_items.  ``unresolved`` lists what could not be matched (starred arguments, opaque ** dicts)."""
+    a = callee_fi.node.args
+    pos = [x.arg for x in a.posonlyargs + a.args]
+    if skip_self is None:
+        skip_self = bool(pos) and pos[0] in ("self", "cls") and isinstance(call.func, ast.Attribute)
+    if skip_self:
+        pos = pos[1:]
+    out, unresolved = {}, []
+    for i, arg in enumerate(call.args):
+        if isinstance(arg, ast.Starred):
+            unresolved.append("*" + U(arg.value))
+            break
+        if i < len(pos):
+            out[pos[i]] = arg
+        else:
+            unresolved.append(f"positional#{i}")
+    for k in call.keywords:
+        if k.arg is not None:
+            out[k.arg] = k.value
+        else:
+            items = dict_items(fv, k.value, call)
+            if items is None:
+                unresolved.append("**" + U(k.value))
+            else:
+                out.update(items)
+    return out, unresolved
+
+
+def enumerate_elem_subst(expr, loop):
+    """in ``expr`` replace the element variable of ``for i, x in enumerate(SEQ[, 0])`` by ``SEQ[i]``
+    (the two spellings of "element i of SEQ"); other loops leave the expression unchanged"""
+    import copy
+
+    it = loop.iter if isinstance(loop, ast.For) else None
+    if not (isinstance(it, ast.Call) and isinstance(it.func, ast.Name) and it.func.id == "enumerate" and it.args and isinstance(loop.target, ast.Tuple)
+            and len(loop.target.elts) == 2 and all(isinstance(e, ast.Name) for e in loop.target.elts)):
+        return expr
+    if len(it.args) > 1 and not (isinstance(it.args[1], ast.Constant) and it.args[1].value == 0):
+        return expr
+    iv, xv = loop.target.elts[0].id, loop.target.elts[1].id
+    seq = it.args[0]
+
+    class R(ast.NodeTransformer):
+        def visit_Name(self, n):
+            if n.id == xv and isinstance(n.ctx, ast.Load):
+                return ast.Subscript(value=copy.deepcopy(seq), slice=ast.Name(id=iv, ctx=ast.Load()), ctx=ast.Load())
+            return n
+
+    return R().visit(copy.deepcopy(expr))
